@@ -604,6 +604,73 @@ class MWFNW(Fmt):
         return "m.mwfn", text, exp, {}
 
 
+class QCSCHEMA(Fmt):
+    """QCSchema JSON written with the json module from the documented field tables (molecule / input / output)."""
+
+    name = "json_qcschema"
+    fmt = "json_qcschema"
+    space = [("schema", ["qcschema_molecule", "qcschema_input", "qcschema_output"]), ("natom", [3, 1, 6]), ("charge_mult", [(0, 1), (1, 2), (-1, 2), (0, 3), (2.0, 1)]),
+             ("masses", ["absent", "masses", "mass_numbers"]), ("real", ["absent", "all-true", "one-ghost"]), ("connectivity", ["absent", "chain"]),
+             ("optional", ["none", "name+symmetry", "atomic_numbers", "all"]), ("coords", ["small", "negative"]), ("model", ["HF/sto-3g", "B3LYP/def2-tzvp"]),
+             ("run_type", ["absent", "energy", "opt", "freq"]), ("provenance", ["dict", "list", "absent"])]
+
+    def make(self, c, seed):
+        import json
+
+        n = c["natom"]
+        z = elements("OHH", n, seed) if n <= 3 else [8, 1, 1, 6, 17, 3][:n]
+        r = coords(c["coords"], n, 10, 1.0, seed)  # the geometry is given in bohr
+        charge, mult = c["charge_mult"]
+        mol = {"schema_name": "qcschema_molecule", "schema_version": 2, "symbols": [writers.sym(zi) for zi in z], "geometry": [float(v) for v in r.ravel()],
+               "molecular_charge": charge, "molecular_multiplicity": mult}
+        if c["provenance"] == "dict":
+            mol["provenance"] = {"creator": "verif", "version": "1", "routine": "ref"}
+        elif c["provenance"] == "list":
+            mol["provenance"] = [{"creator": "verif"}, {"creator": "other", "routine": "x"}]
+        exp = [("atnums", z, None), ("atcoords", r, 1e-12), ("charge", float(charge), 1e-12), ("spinpol", mult - 1, None)]
+        masses_u = [round(periodic_mass(zi), 6) for zi in z]
+        if c["masses"] == "masses":
+            mol["masses"] = masses_u
+            exp.append(("atmasses", np.array(masses_u) * units.amu, ("rel", 1e-12)))
+        elif c["masses"] == "mass_numbers":
+            mol["mass_numbers"] = [int(round(m)) for m in masses_u]
+            exp.append(("atmasses", np.array([int(round(m)) for m in masses_u]) * units.amu, ("rel", 1e-12)))
+        cores = [float(zi) for zi in z]
+        if c["real"] != "absent":
+            real = [True] * n
+            if c["real"] == "one-ghost" and n > 1:
+                real[-1] = False
+                cores[-1] = 0.0
+            mol["real"] = real
+        exp.append(("atcorenums", cores, 1e-12))
+        if c["connectivity"] == "chain" and n > 1:
+            mol["connectivity"] = [[i, i + 1, 1 + (i % 3)] for i in range(n - 1)]
+            exp.append(("bonds", [[i, i + 1, 1 + (i % 3)] for i in range(n - 1)], None))
+        if c["optional"] in ("name+symmetry", "all"):
+            mol["name"] = "test molecule"
+            mol["fix_symmetry"] = "c2v"
+            exp += [("title", "test molecule", None), ("g_rot", "c2v", None)]
+        if c["optional"] in ("atomic_numbers", "all"):
+            mol["atomic_numbers"] = [int(zi) for zi in z]
+        if c["optional"] == "all":
+            mol.update(comment="a comment", atom_labels=[f"L{i}" for i in range(n)], fix_com=True, fix_orientation=False, validated=False, id="m1")
+        if c["schema"] == "qcschema_molecule":
+            doc = mol
+        else:
+            method, basis = c["model"].split("/")
+            doc = {"schema_name": c["schema"], "schema_version": 2.0, "molecule": mol, "driver": "energy", "model": {"method": method, "basis": basis}}
+            if c["run_type"] != "absent":
+                doc["keywords"] = {"run_type": c["run_type"]}
+                exp.append(("run_type", c["run_type"], None))
+            if c["provenance"] != "absent":
+                doc["provenance"] = {"creator": "verif", "routine": "ref"}
+            exp += [("lot", method, None)]
+            if c["schema"] == "qcschema_output":
+                doc.update(properties={"return_energy": -76.0625, "calcinfo_natom": n}, return_result=-76.0625, success=True)
+                exp.append(("energy", -76.0625, 1e-12))
+        return "m.json", json.dumps(doc, indent=1), exp, {}
+
+
 class GAMESS(Fmt):
     name = "gamess"
     space = [("natom", [3, 1, 34]), ("steps", [1, 2]), ("sections", ["all", "no-hessian", "no-masses", "hessian-only", "coordinates-only"]), ("approx_hessian", [False, True]), ("coords", ["small", "negative", "touching"]), T(11)]
@@ -631,7 +698,7 @@ class GAMESS(Fmt):
         return "m.dat", text, exp, {}
 
 
-FORMATS = [FCHKW(), WFNW(), WFXW(), MWFNW(), GAMESS(), XYZ(), EXTXYZ(), PDB(), MOL2(), SDF(), GRO(), CRD(), VASP(), CHGCAR(), LOCPOT(), CUBE(), GJF(), FCIDUMP(), GLOG()]
+FORMATS = [FCHKW(), WFNW(), WFXW(), MWFNW(), GAMESS(), QCSCHEMA(), XYZ(), EXTXYZ(), PDB(), MOL2(), SDF(), GRO(), CRD(), VASP(), CHGCAR(), LOCPOT(), CUBE(), GJF(), FCIDUMP(), GLOG()]
 
 
 def lookup(obj, path):
